@@ -804,6 +804,7 @@ var genericSrcs = []string{
 	"get(mi, 1, mi[2])", "o.id == o.id", "[o.id, o.id]", "string(o)", "len(ll[0])", "lo[0].name == lo[1].name",
 	"mo[\"u\"].id", "[n: l, x: l]", "get(p.b, p.a)", "[p.a, get(p.b, p.a)]", "union(lo, lo) == lo", "m == m && mi == mi",
 	"[m[\"k1\"], m[\"k2\"]] == [m[\"k1\"], m[\"k2\"]]", "string([n: x])", "print(n) == n",
+	"[print(n), print(x)]", "print(s) == print(s)", "print(o).id", "len(print(l)) + len(print(m))", "print(string(print(ls)))",
 }
 var genericUserSrcs = []string{
 	"[nest(len(l)), nest(nest(len(ls)))]", "when(b, nest(1), nest(2)) + nest(when(b, 3, 4))",
@@ -1117,7 +1118,22 @@ func captureStdout(path string) *stdoutCapture {
 	}
 	c := &stdoutCapture{old: os.Stdout, file: f, path: path}
 	os.Stdout = f
+	curCapture = c
 	return c
+}
+
+// curCapture: the process's active capture (C14 compares what the solo and the concurrent
+// runs of a scenario printed).
+var curCapture *stdoutCapture
+
+// printedLines: what has been printed since the last read, as a sorted multiset of lines.
+func printedLines() string {
+	if curCapture == nil {
+		return ""
+	}
+	ls := strings.Split(curCapture.read(), "\n")
+	sort.Strings(ls)
+	return strings.Join(ls, "\n")
 }
 
 // read returns what was written since the last read and truncates.
